@@ -32,6 +32,8 @@ type Env struct {
 	// postLocals: ensures of the function under verification may name locals
 	// (their values at the return), after parameters and results
 	postLocals bool
+	oldVars    map[string]Val // values names denote inside old(...) (captured variables of closures)
+	siteFn     string // function whose call-site counters calls(...) denotes (callee contracts)
 	inQuant    bool
 	// loopHead: when evaluating clauses of a loop, "rangeindex" denotes that
 	// loop's hidden index variable
@@ -244,6 +246,11 @@ func (ex *Exec) wantSort(v Val, sort, what string) {
 }
 
 func (ex *Exec) evIdent(name string, env *Env) Val {
+	if env.cur != nil && env.oldVars != nil {
+		if v, ok := env.oldVars[name]; ok {
+			return v
+		}
+	}
 	if v, ok := env.vars[name]; ok {
 		return v
 	}
@@ -1015,6 +1022,22 @@ func (ex *Exec) evCall(x *SCall, env *Env) Val {
 		ex.wantSort(v, SortIface, "unboxstr")
 		fn := ex.boxFn(env.st, SortBytes)
 		return TV(app(SortBytes, "un"+fn, IfVal(v.T)), types.Typ[types.String])
+	case "calls":
+		// calls("callee", k): how many times the k-th call site of callee in this
+		// function has been executed so far (ghost counter kept by the engine)
+		sl, ok := x.Args[0].(*SStr)
+		kk, ok2 := x.Args[1].(*SInt)
+		if !ok || !ok2 {
+			specFail("calls(\"callee\", k)")
+		}
+		n, _ := strconv.Atoi(kk.V)
+		fnKey := ""
+		if env.siteFn != "" {
+			fnKey = env.siteFn
+		} else if env.fr != nil && env.fr.fn != nil {
+			fnKey = env.fr.fn.String()
+		}
+		return TV(ex.heapIn(env, siteHeap(fnKey, sl.V, n), SortInt), intT)
 	case "structval":
 		// the struct value behind an immutable package-level pointer variable
 		v := arg(0)
